@@ -1,11 +1,14 @@
 (* C37 — Reconnect back-off follows its policy and never overflows.  Statements only. *)
 From Coq Require Import List ZArith.
+Import ListNotations.
 From OV Require Import C37.Model C37.Proofs.
 Open Scope Z_scope.
 
 (* For every policy (any durations up to Duration::MAX, any limit) and any number of observed
    calls, the iterator model yields exactly: delay_0 = initial, delay_(k+1) = min(max, 2*delay_k),
-   for the first `limit` calls, then None; never a panic. *)
+   for the first `limit` calls, then None; never a panic.  A case also says how the policy object
+   was built (new / infinity / never / default / client configuration) and whether the iterator
+   or the connect loop that consumes it is observed. *)
 Theorem C37_sequence : forall c, valid c -> run c = spec c.
 Proof. exact run_eq_spec. Qed.
 Print Assumptions C37_sequence.
@@ -14,9 +17,13 @@ Theorem C37_oracle : forall c, valid c -> oracle c (run c) = true.
 Proof. exact oracle_holds. Qed.
 Print Assumptions C37_oracle.
 
-Theorem C37_limit : forall c k, valid c -> c_count0 c = 0 -> (k < Z.to_nat (c_n c))%nat ->
-  (nth k (run c) 0 <> -1 <-> match c_limit c with Some m => Z.of_nat k < m | None => True end).
-Proof. exact yields_iff_within_limit. Qed.
+Theorem C37_iterator : forall p, valid_p p -> run_p p = spec_p p.
+Proof. exact run_eq_spec_p. Qed.
+Print Assumptions C37_iterator.
+
+Theorem C37_limit : forall c k, valid_p c -> c_count0 c = 0 -> (k < Z.to_nat (c_n c))%nat ->
+  (nth k (run_p c) 0 <> -1 <-> match c_limit c with Some m => Z.of_nat k < m | None => True end).
+Proof. exact yields_iff_within_limit_p. Qed.
 Print Assumptions C37_limit.
 
 Theorem C37_doubling : forall mx d0 k,
@@ -28,7 +35,39 @@ Theorem C37_no_panic : forall c, valid c -> ~ In (-2) (run c).
 Proof. exact no_panic. Qed.
 Print Assumptions C37_no_panic.
 
+(* The loop that consumes the policy (AsyncSecureChannel::connect): against a server that refuses
+   every attempt a fresh policy of limit m makes exactly m + 1 attempts, sleeps exactly the
+   policy's m delays in order and gives up; an unlimited policy never gives up.  For every limit,
+   every duration and every observation bound [fuel] above the limit. *)
+Theorem C37_connect_limited : forall c m fuel, valid_p c -> c_count0 c = 0 -> c_limit c = Some m ->
+  (Z.to_nat m < fuel)%nat ->
+  connect fuel (init_state c) =
+  (m + 1, 1, map (fun j => delay (c_max c) (c_init c) j) (seq 0 (Z.to_nat m))).
+Proof. exact connect_limited. Qed.
+Print Assumptions C37_connect_limited.
+
+Theorem C37_connect_unlimited : forall c fuel, valid_p c -> c_limit c = None ->
+  let '(a, g, ds) := connect fuel (init_state c) in a = Z.of_nat fuel /\ g = 0.
+Proof. exact connect_unlimited. Qed.
+Print Assumptions C37_connect_unlimited.
+
+(* every constructor yields a valid policy from valid arguments (so [valid] is inhabited for each) *)
+Theorem C37_constructors_valid : forall h pre b p, valid_p p ->
+  match h with Config l => -1 <= l <= 2147483647 | _ => True end ->
+  valid_p (policy_of (mk_case h pre b p)).
+Proof. exact policy_of_valid. Qed.
+Print Assumptions C37_constructors_valid.
+
 Theorem C37_legacy_refuted :
-  exists c, valid c /\ In (-2) (Legacy.take (Z.to_nat (c_n c)) (init_state c)).
+  exists c, valid_p c /\ In (-2) (Legacy.take (Z.to_nat (c_n c)) (init_state c)).
 Proof. exact legacy_refuted_mul. Qed.
 Print Assumptions C37_legacy_refuted.
+
+(* the connect loop before the fix: the back-off was created inside the loop, so a policy of
+   limit 2 never gave up and slept the initial delay every time *)
+Theorem C37_legacy_connect_refuted :
+  exists c, valid_p c /\ c_count0 c = 0 /\ c_limit c = Some 2 /\
+            LegacyConnect.connect 10 (init_state c) = (10, 0, repeat (c_init c) 10) /\
+            connect 10 (init_state c) = (3, 1, [c_init c; 2 * c_init c]).
+Proof. exact legacy_connect_refuted. Qed.
+Print Assumptions C37_legacy_connect_refuted.
